@@ -9,6 +9,8 @@ import (
 	"net"
 	"strconv"
 	"strings"
+	"sync"
+	"sync/atomic"
 	"time"
 
 	"github.com/pion/stun/v3"
@@ -90,11 +92,55 @@ func (s *ltcredSys) Do(a map[string]any, wait func()) ([]Obs, error) {
 		if err != nil {
 			return nil, err
 		}
+		// a server calls one handler from all its listener and connection goroutines: the answer for a user name
+		// is the same whoever else is being authenticated at that moment
+		par := s.parallelSame()
 
-		return []Obs{{"k": "verdict", "ok": direct, "e2e": e2e, "user": u}}, nil
+		return []Obs{{"k": "verdict", "ok": direct, "e2e": e2e, "user": u, "par": par}}, nil
 	}
 
 	return nil, fmt.Errorf("unknown action %v", a["a"])
+}
+
+// parallelSame: six goroutines ask the handler about six different (unexpired, well-formed) user names at
+// the same time, 40 times each; every answer must be the one the handler gives when asked alone.
+func (s *ltcredSys) parallelSame() (same bool) {
+	names := make([]string, 6)
+	ref := make([][]byte, 6)
+	ask := func(u string) (k []byte, ok bool) {
+		defer func() {
+			if recover() != nil {
+				k, ok = nil, false
+			}
+		}()
+		_, k, ok = s.handler(&turn.RequestAttributes{Username: u, Realm: realm, SrcAddr: &net.UDPAddr{IP: net.IPv4(10, 0, 0, 7), Port: 7}})
+
+		return k, ok
+	}
+	for i := range names {
+		names[i] = fmt.Sprintf("%d:par-user-%d", time.Now().Unix()+3600+int64(i), i)
+		if s.kind == "lt" {
+			names[i] = fmt.Sprintf("%d", time.Now().Unix()+3600+int64(i))
+		}
+		ref[i], _ = ask(names[i])
+	}
+	var wg sync.WaitGroup
+	var bad atomic.Int32
+	for i := range names {
+		i := i
+		wg.Add(1)
+		go func() {
+			defer wg.Done()
+			for n := 0; n < 40; n++ {
+				if k, ok := ask(names[i]); !ok || !bytes.Equal(k, ref[i]) {
+					bad.Add(1)
+				}
+			}
+		}()
+	}
+	wg.Wait()
+
+	return bad.Load() == 0
 }
 
 func (s *ltcredSys) ts() (int64, string) {
@@ -233,6 +279,9 @@ func (s *ltcredSys) Check(e Edge, obs []Obs) []Mismatch {
 		if got, _ := obs[0]["e2e"].(bool); got != want {
 			ms = append(ms, Mismatch{"ltcred", fmt.Sprintf("%s handler end-to-end: Allocate signed with (%q) mutation %v, %v s before expiry: success=%v, spec %v",
 				s.kind, obs[0]["user"], e.A["mut"], e.A["left"], got, want)})
+		}
+		if par, _ := obs[0]["par"].(bool); !par {
+			ms = append(ms, Mismatch{"ltcred", s.kind + " handler: asked about six user names by six goroutines at once, it gave answers that differ from the ones it gives when asked alone"})
 		}
 
 		return ms
